@@ -336,7 +336,11 @@ PROPS = {
               # narrow, staircase-like overlapping level-0 files (key locality + frequent flushes)
               dict(driver="hist", args=["--nops", "80", "--per-file", "6", "--profile", "local",
                                         "--nkeys", "12", "--compact-bias", "1"],
-                   quick=32, thorough=800)]),
+                   quick=32, thorough=800),
+              # block cache and table cache of 2..8 entries: every read evicts and re-opens /
+              # re-reads (RainCache EvictTable / EvictBlock are taken by the real code)
+              dict(driver="hist", args=["--nops", "70", "--per-file", "6", "--small-caches",
+                                        "--compact-bias", "1"], quick=24, thorough=600)]),
     "C03": dict(
         design=[(CORE, [Q1], ["MC_RainCore_small.cfg", "MC_RainCore_pins.cfg"])],
         switches=[("Bug_DropAboveSnapshot", CORE, Q1, "ReadCorrect"),
@@ -480,7 +484,7 @@ PROPS = {
               dict(driver="sched", gen="tlc", genspec="RainConc_Gen", args=[], quick=60,
                    thorough=2000, trace=CONC_TRACE, final_rc3=True),
               dict(driver="hist", args=["--nops", "70", "--per-file", "6", "--descriptors",
-                                        "--compact-bias", "1", "--profile", "fill"],
+                                        "--compact-bias", "1", "--profile", "fill", "--small-caches"],
                    quick=24, thorough=600),
               # values of 2.2 .. 3.2 MiB: above every internal byte counter's period (log blocks,
               # the iterator's read sampling, file and memtable budgets)
@@ -496,7 +500,10 @@ PROPS = {
         work=[dict(driver="hist", args=["--nops", "60", "--per-file", "6", "--walks", "--max-iters", "3",
                                         "--max-snaps", "3", "--snap-bias", "1"], quick=40, thorough=1000),
               dict(driver="hist", args=["--nops", "70", "--per-file", "6", "--walks", "--profile", "hot",
-                                        "--compact-bias", "1"], quick=16, thorough=400)]),
+                                        "--compact-bias", "1"], quick=16, thorough=400),
+              # cursors positioned inside blocks / tables that the tiny caches have evicted
+              dict(driver="hist", args=["--nops", "60", "--per-file", "6", "--walks", "--small-caches",
+                                        "--max-iters", "3"], quick=16, thorough=400)]),
     "C12": dict(
         design=[("MC_RainLog.tla", ["MC_RainLog_small.cfg", "MC_RainLog_realq.cfg"],
                  ["MC_RainLog_small.cfg", "MC_RainLog_deep.cfg", "MC_RainLog_real.cfg"])],
@@ -773,6 +780,8 @@ def main():
     try:
         if prop == "replay":
             return replay(sys.argv[2])
+        if prop == "adhoc":
+            return adhoc(sys.argv[2], int(sys.argv[3]), sys.argv[4:], seed)
         if prop in PROPS:
             return check_prop(prop, tier, seed)
         log(f"unknown property {prop}")
@@ -783,6 +792,43 @@ def main():
     except subprocess.TimeoutExpired as e:
         log(f"TOOL-ERROR: timeout {e}")
         return 2
+
+
+TRACE_SPEC_OF = {"hist": ("RainCore_Trace.tla", "RainCore_Trace.cfg"),
+                 "crash": ("RainCore_Trace.tla", "RainCore_Trace.cfg"),
+                 "fault": ("RainCore_Trace.tla", "RainCore_Trace.cfg"),
+                 "corrupt": ("RainCore_Trace.tla", "RainCore_Trace.cfg"),
+                 "logfmt": ("RainLog_Trace.tla", "RainLog_Trace.cfg"),
+                 "lockfmt": ("RainLock_Trace.tla", "RainLock_Trace.cfg"),
+                 "tablefmt": ("RainTable_Trace.tla", "RainTable_Trace.cfg"),
+                 "filterfmt": ("RainTable_Trace.tla", "RainTable_Trace.cfg"),
+                 "sched": CONC_TRACE, "live": CONC_TRACE}
+
+
+def adhoc(driver, runs, args, seed):
+    """Experiments: check.py adhoc <driver> <runs> [driver args...]: drive, validate, list every
+    record of every property (no evidence, no verdict)."""
+    build_harness()
+    outdir = f"{OUT}/adhoc"
+    nproc = min(12, NCPU)
+    recs = run_driver_parallel(driver, outdir, 424242 + seed * 1000, runs, min(nproc, runs), args)
+    files = sorted(glob.glob(f"{outdir}/p*/part*/trace_*.ndjson"))
+    tmod, tcfg = TRACE_SPEC_OF[driver]
+    vruns, rejects, tstates = validate_traces(files, tmod, tcfg, nproc, "adhoc")
+    for rj in rejects:
+        log("REJECTED: " + rj["detail"][:1500])
+    n = 0
+    for vr in vruns:
+        for v in vr["viol"]:
+            n += 1
+            log(f"seed={vr['seed']} tag={vr.get('tag')} {json.dumps(v)[:600]}")
+    shapes = {}
+    for r in recs:
+        k = (r.get("max_level"), r.get("max_files"))
+        shapes[k] = shapes.get(k, 0) + 1
+    log(f"adhoc {driver}: {len(recs)} runs, {len(vruns)} validated, {tstates} trace states, {n} records, "
+        f"{len(rejects)} rejects; statuses {sorted(set(r.get('status') for r in recs))}")
+    return 0 if not n and not rejects else 1
 
 
 def replay(path):
